@@ -36,18 +36,21 @@ type SimpleEmu struct {
 	FormatRelaxesType bool // type.go:200-202: with a format and a non-numeric declared type, strings and slices skip the type check
 	MultipleOfFloat   bool // values.go MultipleOf: float64 division + relative tolerance
 	EnumConvert       bool // validator.go basicCommonValidator: membership by reflect.Convert to the enum member's Go type
+	HeaderEmptyString bool // validator.go (*HeaderValidator).stringValidator: built with required=true, so "" is "required" whatever the header declares
+	ByteSliceIsString bool // type.go schemaInfoForType: a []uint8 value is taken for a (binary) string, never for an array of integers
 }
 
-var SimpleEmuNames = []string{"format-relaxes-type", "multipleof-float-tolerance", "enum-convert"}
+var SimpleEmuNames = []string{"format-relaxes-type", "multipleof-float-tolerance", "enum-convert", "header-empty-string-required", "byte-slice-taken-for-string"}
 
 func SimpleEmuFromMask(m int) SimpleEmu {
-	return SimpleEmu{FormatRelaxesType: m&1 != 0, MultipleOfFloat: m&2 != 0, EnumConvert: m&4 != 0}
+	return SimpleEmu{FormatRelaxesType: m&1 != 0, MultipleOfFloat: m&2 != 0, EnumConvert: m&4 != 0, HeaderEmptyString: m&8 != 0, ByteSliceIsString: m&16 != 0}
 }
 
 // SimpleCtx evaluates typed Go values against simple schemas.
 type SimpleCtx struct {
 	Formats strfmt.Registry
 	Emu     SimpleEmu
+	Header  bool // the definition is a response header (not a parameter)
 	Fired   map[string]bool
 	// OutOfDomain is set when the value is outside what the property quantifies over
 	// (nil elements, maps, structs, []byte, named types).
@@ -97,7 +100,7 @@ func goKind(v any) string {
 	case reflect.Float32, reflect.Float64:
 		return "number"
 	case reflect.Slice:
-		if rv.Type().Elem().Kind() == reflect.Uint8 {
+		if rv.Type().Elem().Kind() == reflect.Uint8 && rv.Type() != reflect.TypeOf([]uint8(nil)) {
 			return "?"
 		}
 		return "array"
@@ -154,10 +157,16 @@ func (c *SimpleCtx) Valid(d *SimpleDef, v any, top bool) bool {
 		c.OutOfDomain = true
 		return true
 	}
+	if c.Emu.ByteSliceIsString && reflect.TypeOf(v) == reflect.TypeOf([]uint8(nil)) {
+		// recorded deviation: the value counts as a string for the type check, and no string, array or items
+		// constraint looks at it afterwards (their validators apply to string / slice-of-items kinds only)
+		c.fired("byte-slice-taken-for-string")
+		k = "bytes"
+	}
 	typeOK := false
 	switch d.Type {
 	case "string", "boolean", "array":
-		typeOK = k == d.Type
+		typeOK = k == d.Type || (k == "bytes" && d.Type == "string")
 	case "integer":
 		if k == "integer" {
 			typeOK = true
@@ -215,6 +224,10 @@ func (c *SimpleCtx) Valid(d *SimpleDef, v any, top bool) bool {
 		s := v.(string)
 		n := int64(utf8.RuneCountInString(s))
 		if d.Required && top && s == "" {
+			valid = false
+		}
+		if c.Emu.HeaderEmptyString && c.Header && top && s == "" {
+			c.fired("header-empty-string-required")
 			valid = false
 		}
 		if d.MaxLength != nil && n > *d.MaxLength {
